@@ -22,7 +22,9 @@ Inductive op :=
 | OJoin (r src : nat) (size : Z)
 | OSetIdentity (r : nat) (key : N)
 | OPublish (r : nat) (mh : hash)                         (* ToMultihash: writes the manifest block mh *)
-| OIter (r : nat) (o : iter_opts).                       (* read only *)
+| OIter (r : nat) (o : iter_opts)                        (* read only *)
+| OAppendFail (r : nat) (payload : N) (pc : Z) (h : hash) (* an append during a store outage: the entry (CID h) is built, its block write refused *)
+| OFail (r : nat).                                       (* a publication during a store outage: the manifest write is refused *)
 
 Fixpoint set_nth {A} (n : nat) (x : A) (l : list A) : list A :=
   match n, l with
@@ -46,6 +48,9 @@ Inductive opres :=
 | ResNone (c : rclass)
 | ResEntry (e : entry)
 | ResIter (es : list entry) (closed : bool).
+
+Definition set_time (l : log) (t : Z) : log :=
+  mkLog (l_id l) (l_entries l) (l_heads l) (l_next l) t (l_cid l) (l_key l) (l_sort l) (l_deny l).
 
 Definition step (s : sys) (o : op) : sys * opres :=
   match o with
@@ -97,6 +102,18 @@ Definition step (s : sys) (o : op) : sys * opres :=
         | other => (s, ResNone (class_of other))
         end
       end
+  | OAppendFail r payload pc h =>
+      (* Append moves the log's clock, builds and signs the entry, and only then writes the block:
+         when the write is refused the clock has moved and nothing else has changed *)
+      match nth_error (s_logs s) r with
+      | None => (s, ResNone RcBadIndex)
+      | Some l =>
+        match append_entry l payload pc h with
+        | Some e => (mkSys (set_nth r (set_time l (e_time e)) (s_logs s)) (s_univ s ++ [e]) (s_store s), ResNone RcErrOther)
+        | None => (s, ResNone RcPanic)
+        end
+      end
+  | OFail _ => (s, ResNone RcErrOther)
   end.
 
 Definition run_from (s : sys) (ops : list op) : sys := fold_left (fun s o => fst (step s o)) ops s.
